@@ -126,3 +126,88 @@ def read_bmp(b: bytes):
 
 def cast_data(img, palette="systemMac"):
     return dict(height=img["H"], width=img["W"], depth=img["depth"], w_padding=img["ox"], h_padding=img["oy"], palette_txt=palette)
+
+
+# ---------------------------------------------------------------------------------------------- C10 support: loop rounds
+
+LOOP_NAMES = {
+    "Decoder8b": (["ops", "run", "lit"], ["rows", "cols"]),
+    "Decoder1b": (["ops", "run", "runBits", "lit", "litBits"], ["rows", "cols", "bits"]),
+    "Decoder16b": (["ops", "run", "lit", "deRows", "dePix"], []),
+    "Decoder24b": (["ops", "run", "lit", "deRows", "dePix"], []),
+    "Decoder4b": ([], []),
+}
+STEP_KEYS = ["ops", "run", "runBits", "lit", "litBits", "rows", "cols", "bits", "deRows", "dePix"]
+_LOOPMAP = {}
+
+
+def _loop_map(cls):
+    """code object -> {first body line: (counter name, (lo, hi) line span of a loop that IS the first body statement, or None)}
+    for decode_compressed_data / decode_raw_data of a decoder class; None when the source does not have the expected loops"""
+    import ast, inspect, sys
+    if cls in _LOOPMAP:
+        return _LOOPMAP[cls]
+    names = LOOP_NAMES.get(cls.__name__)
+    res = None
+    if names is not None:
+        src = inspect.getsource(sys.modules[cls.__module__])
+        cdef = [n for n in ast.walk(ast.parse(src)) if isinstance(n, ast.ClassDef) and n.name == cls.__name__]
+        res = {}
+        for fname, nm in zip(("decode_compressed_data", "decode_raw_data"), names):
+            fn = [n for n in cdef[0].body if isinstance(n, ast.FunctionDef) and n.name == fname]
+            loops = sorted([l for l in ast.walk(fn[0]) if isinstance(l, (ast.For, ast.While))], key=lambda l: l.lineno) if fn else []
+            if len(loops) != len(nm):
+                res = None
+                break
+            m = {}
+            for l, name in zip(loops, nm):
+                first = l.body[0]
+                span = (first.lineno, first.end_lineno) if isinstance(first, (ast.For, ast.While)) else None
+                m[first.lineno] = (name, span)
+            res[getattr(cls, fname).__code__] = m
+    _LOOPMAP[cls] = res
+    return res
+
+
+def real_loop_rounds(castData, clut, data):
+    """(C10 support) rounds of every Python-level loop of the bitmap decoder selected by castData['depth'], counted on the
+    REAL code with sys.settrace while bitd2bmp(castData, clut, data) runs: a round = one start of a loop body (the round that
+    raises included). When the first statement of a loop body is itself a loop header, a line event on it is a new round of
+    the outer loop only if the previous line executed in that frame lies outside the inner loop. Counterpart of the driver
+    line `bitd steps <call>` (same keys + total). Works whether or not the call raises; None if the source has other loops."""
+    import sys, importlib
+    m = importlib.import_module("drxtract.bitd.bitd2bmp")
+    counts = {k: 0 for k in STEP_KEYS}
+    dec = m.DECODERS.get(castData.get("depth"))
+    lm = _loop_map(type(dec)) if dec is not None else {}
+    if lm is None:
+        return None
+
+    def tr(frame, event, arg):
+        mp = lm.get(frame.f_code)
+        if mp is None:
+            return None
+        prev = [None]
+
+        def line(frame, event, arg):
+            if event == "line":
+                ln = frame.f_lineno
+                hit = mp.get(ln)
+                if hit is not None:
+                    name, span = hit
+                    if span is None or prev[0] is None or not (span[0] <= prev[0] <= span[1]):
+                        counts[name] += 1
+                prev[0] = ln
+            return line
+        return line
+    old = sys.gettrace()
+    sys.settrace(tr)
+    try:
+        try:
+            m.bitd2bmp(castData, clut, data)
+        except Exception:
+            pass
+    finally:
+        sys.settrace(old)
+    counts["total"] = sum(counts[k] for k in STEP_KEYS)
+    return counts
